@@ -11,20 +11,27 @@ package repository
 
 //@ ghost var refs map[string]Hash
 
+// mutSeq counts the mutations of the repository (objects stored, refs changed, clocks moved) in program order;
+// refMutSeq is its value at the last change of a ref. "The ref update is the last mutation of a write path"
+// (refMutSeq == mutSeq at the end) is what makes every crash point leave an entity old or new (C06): objects
+// that no ref reaches are invisible.
+//@ ghost var mutSeq int
+//@ ghost var refMutSeq int
+
 //@ func RepoData.UpdateRef
-//@   modifies refs
-//@   ensures [set]   result == nil ==> refs == update(old(refs), ref, hash)
-//@   ensures [error] result != nil ==> refs == old(refs)
+//@   modifies refs, mutSeq, refMutSeq
+//@   ensures [set]   result == nil ==> refs == update(old(refs), ref, hash) && mutSeq == old(mutSeq) + 1 && refMutSeq == mutSeq
+//@   ensures [error] result != nil ==> refs == old(refs) && mutSeq == old(mutSeq) && refMutSeq == old(refMutSeq)
 
 //@ func RepoData.RemoveRef
-//@   modifies refs
-//@   ensures [removed] result == nil ==> refs == remove(old(refs), ref)
-//@   ensures [error]   result != nil ==> refs == old(refs)
+//@   modifies refs, mutSeq, refMutSeq
+//@   ensures [removed] result == nil ==> refs == remove(old(refs), ref) && mutSeq == old(mutSeq) + 1 && refMutSeq == mutSeq
+//@   ensures [error]   result != nil ==> refs == old(refs) && mutSeq == old(mutSeq) && refMutSeq == old(refMutSeq)
 
 //@ func RepoData.CopyRef
-//@   modifies refs
-//@   ensures [copied] result == nil ==> (source in old(refs)) && refs == update(old(refs), dest, old(refs)[source])
-//@   ensures [error]  result != nil ==> refs == old(refs)
+//@   modifies refs, mutSeq, refMutSeq
+//@   ensures [copied] result == nil ==> (source in old(refs)) && refs == update(old(refs), dest, old(refs)[source]) && mutSeq == old(mutSeq) + 1 && refMutSeq == mutSeq
+//@   ensures [error]  result != nil ==> refs == old(refs) && mutSeq == old(mutSeq) && refMutSeq == old(refMutSeq)
 
 //@ func RepoData.RefExist
 //@   modifies nothing
@@ -82,11 +89,13 @@ package repository
 // value. (Both are verified for MemClock and assumed here for the clocks behind the interface.)
 //@ ghost var clockSeen map[string]uint64
 //@ func RepoClock.Witness
-//@   modifies clockSeen
+//@   modifies clockSeen, mutSeq
+//@   ensures [counted] mutSeq >= old(mutSeq)
 //@   ensures [witnessed] result == nil ==> clockSeen[name] >= time
 //@   ensures [monotone]  forall n string :: { clockSeen[n] } clockSeen[n] >= old(clockSeen[n])
 //@ func RepoClock.Increment
-//@   modifies clockSeen
+//@   modifies clockSeen, mutSeq
+//@   ensures [counted] mutSeq > old(mutSeq)
 //@   ensures [strictly-greater] result1 == nil ==> result > old(clockSeen[name]) && clockSeen[name] == result
 //@   ensures [monotone]  forall n string :: { clockSeen[n] } clockSeen[n] >= old(clockSeen[n])
 
@@ -149,3 +158,11 @@ package repository
 //@ func RepoStorage.LocalStorage
 //@   modifies nothing
 //@   ensures result != nil
+
+// Storing objects touches no ref.
+//@ func RepoData.StoreData
+//@ func RepoData.StoreTree
+//@ func RepoData.StoreCommit
+//@ func RepoData.StoreSignedCommit
+//@   modifies mutSeq
+//@   ensures [counted] mutSeq >= old(mutSeq) && (result1 == nil ==> mutSeq > old(mutSeq))
